@@ -59,6 +59,16 @@ Fixpoint decode_reqs (fuel : nat) (l : list Z) : list wreq :=
     end
   end.
 
+(* flat (y, x, attr) triples *)
+Fixpoint decode_pts (fuel : nat) (l : list Z) : list (Z * Z * Z) :=
+  match fuel with
+  | O => []
+  | S f => match l with
+           | y :: x :: a :: r => (y, x, a) :: decode_pts f r
+           | _ => []
+           end
+  end.
+
 Definition enc_idx (i : idx) : list Z :=
   match i with
   | IInt z => [0; z]
